@@ -65,3 +65,4 @@ pub fn cps_to_string(v: &serde_json::Value) -> Option<String> {
         .map(|c| c.as_u64().and_then(|c| char::from_u32(c as u32)))
         .collect()
 }
+pub mod script;
